@@ -108,7 +108,9 @@ fn compile_file(dir: &PathBuf, name: &str, cases: &[Case], idxs: &[usize], opts:
     let mut ranges: Vec<(usize, usize)> = Vec::new(); // 1-based inclusive line range per case
     let mut line = src.matches('\n').count() + 1;
     for (k, &i) in idxs.iter().enumerate() {
-        let text = format!("pub mod c{} {{\n{}\n}}\n", k, cases[i].code);
+        // every case lives next to user modules named like the std crates: generated code that names `core`, `std`
+        // or `alloc` without a leading `::` resolves to these empty modules and stops compiling (hygiene, C13)
+        let text = format!("pub mod c{} {{ #[allow(unused)] mod core {{}} #[allow(unused)] mod std {{}} #[allow(unused)] mod alloc {{}}\n{}\n}}\n", k, cases[i].code);
         let n = text.matches('\n').count();
         ranges.push((line, line + n - 1));
         line += n;
